@@ -33,7 +33,7 @@ fn spec_for(prop: &str, _tier: Tier) -> Option<Spec> {
 			let mut s = Spec::new(
 				"C15",
 				"exploration",
-				"A case is one scenario with live workers: clients faster and slower than the workers (seeded delays at the wait/signal and hand-over yield hooks), many tiny commits, transactions of 1-20 MiB crossing the 16 MiB commit-queue limit with 2-3 throttled committers, one transaction of 130-142 MiB (beyond the 128 MiB limit of logged-but-unapplied bytes), index growth in progress, a worker failure reported while committers are held back by the full queue (their calls must return), tree dereferences committed under the tree's read guard (the log worker postpones them; after the guard is released they must complete without another commit), always_flush on/off; then the handle is dropped - in half of the histories the instant the last commit call returned, with the queue / log / enact stages still busy - and the database reopened. Bounded-progress oracle: every commit call returns, the queue empties and (with always_flush) everything is enacted without further client activity, drop returns - each within 60 s of the last observed progress; a stall (no status counter moved, no commit returned for 60 s while work is pending) is the refuting event and is reported with the thread states. After reopen every committed key must be present (all data persisted). evaluations = progress conditions evaluated; distinct_nontrivial = distinct (scenario kind, throttling observed, always_flush, delay profile) classes.",
+				"A case is one scenario with live workers: clients faster and slower than the workers (seeded delays at the wait/signal and hand-over yield hooks), many tiny commits, transactions of 1-20 MiB crossing the 16 MiB commit-queue limit with 2-3 throttled committers, one transaction of 130-142 MiB (beyond the 128 MiB limit of logged-but-unapplied bytes), index growth in progress, a worker failure reported while committers are held back by the full queue (their calls must return), tree dereferences committed under the tree's read guard (the log worker postpones them; after the guard is released they must complete without another commit), the commit queue holding exactly its 16 MiB limit (and one byte less / more) when another commit arrives, the public syncing options sync_wal / sync_data in all four combinations, always_flush on/off; then the handle is dropped - in half of the histories the instant the last commit call returned, with the queue / log / enact stages still busy - and the database reopened. Bounded-progress oracle: every commit call returns, the queue empties and (with always_flush) everything is enacted without further client activity, drop returns - each within 60 s of the last observed progress; a stall (no status counter moved, no commit returned for 60 s while work is pending) is the refuting event and is reported with the thread states. After reopen every committed key must be present (all data persisted). evaluations = progress conditions evaluated; distinct_nontrivial = distinct (scenario kind, throttling observed, always_flush, delay profile) classes.",
 			)
 			.require("commits_returned", 2000)
 			.require("drops_completed", 20)
@@ -44,6 +44,7 @@ fn spec_for(prop: &str, _tier: Tier) -> Option<Spec> {
 			.require("immediate_drops_with_work_pending", 3)
 			.require("persisted_checks", 20)
 			.require("postponements_seen", 5)
+			.require("boundary_reached", 3)
 			.require("postponed_then_drained_without_client", 1)
 			.budget(75, 900);
 			s.case_timeout_s = 90;
